@@ -303,5 +303,6 @@ func init() {
 		run.Rule("SIB-scan", "constant-time lookups scan every entry exactly once", 5)
 		esib.CheckMaskedScan(run, p, "SIB-scan")
 		arithmeticFoundations(c)
+		groupFoundations(c, true)
 	}
 }
